@@ -542,6 +542,46 @@ def check_converters(ctx: Check, tree: Tree) -> None:
         raise AnalysisError(f"only {n} mapping fields on HelicityModel (4 confirmed)")
 
 
+FRESH_SOURCES = {
+    "sympy.Dummy": "a SymPy Dummy (identity = process-global counter with a random base)",
+    "sympy.core.symbol.Dummy": "a SymPy Dummy",
+    "sympy.numbered_symbols": None,  # deterministic
+    "uuid.uuid1": "a UUID", "uuid.uuid4": "a UUID", "os.getpid": "the process id", "os.urandom": "random bytes",
+    "time.time": "the clock", "time.time_ns": "the clock", "time.monotonic": "the clock", "time.perf_counter": "the clock",
+    "datetime.datetime.now": "the clock", "random.random": "a random number", "random.randint": "a random number",
+    "random.choice": "a random choice", "random.shuffle": "a random order", "secrets.token_hex": "random bytes",
+}  # fmt: skip
+
+
+def check_fresh(ctx: Check, tree: Tree, reach: dict[str, FuncInfo]) -> None:
+    """R-FRESH: nothing reachable from formulate() creates a value that is unique to the process
+    or the moment (sp.Dummy, uuid, clock, random, id(), object()): such a value inside the model
+    makes two formulate() calls in two processes - or a model and its pickle from another process -
+    unequal although (reaction, configuration) are the same.  (Dummy symbols created inside
+    evaluate()/printer methods appear only when an expression is unfolded or printed, not in the
+    model, and are not on the formulate path.)"""
+    n_calls = 0
+    bad = 0
+    for q, fn in sorted(reach.items()):
+        for call, callee in tree.calls_in(fn, nested=True):
+            n_calls += 1
+            what = None
+            if callee in FRESH_SOURCES:
+                what = FRESH_SOURCES[callee]
+            elif isinstance(call.func, ast.Name) and call.func.id in {"id", "object"} and callee in {None, "id", "object", "builtins.id", "builtins.object"}:
+                if call.func.id == "object" and call.args:
+                    continue
+                what = "id() - a memory address" if call.func.id == "id" else "a fresh object() (identity only)"
+            if what is None:
+                continue
+            bad += 1
+            ctx.violation("R-FRESH", f"{q}::{unparse(call.func)}", tree.loc(call),
+                          f"{q}: `{unparse(call)[:60]}` creates {what} on the formulate path",
+                          "the model then differs between two processes (and from its own pickle loaded elsewhere) for the same reaction and configuration")
+    if not bad:
+        ctx.ok("R-FRESH", "src/ampform", f"{n_calls} calls in the {len(reach)} functions reachable from formulate(): none creates a process-unique value (Dummy, uuid, clock, random, id, object())")
+
+
 def run(ctx: Check, tree: Tree) -> None:
     from .c06_order import check_order
 
@@ -550,6 +590,7 @@ def run(ctx: Check, tree: Tree) -> None:
         "R-EFFECT: formulate resets its scratch state first; every other write reachable from it targets locals, objects under construction, or the scratch state",
         "R-ORDER: no unordered container with hash-seed-sensitive elements reaches an order-preserving sink (tuple/list/loop-with-append/sequence argument of an expression constructor) without sorted()",
         "R-CANON: every mapping field of HelicityModel is converted into a new mapping (sorted where promised)",
+        "R-FRESH: nothing reachable from formulate() creates a process-unique value (sp.Dummy, uuid, clock, random, id(), object())",
         "R-SHARED: no class-level mutable container of the package is mutated through self/cls without being re-bound per instance in the constructor",
     ]
     ctx.not_decided += ["equality in a fresh process beyond hash-seed effects (e.g. qrules' own determinism)", "thread interleavings (builders are not advertised as thread safe)"]
@@ -566,4 +607,5 @@ def run(ctx: Check, tree: Tree) -> None:
     ctx.section(check_effects, ctx, tree, reach)
     ctx.section(check_order, ctx, tree, reach)
     ctx.section(check_shared_class_state, ctx, tree)
+    ctx.section(check_fresh, ctx, tree, reach)
     ctx.section(check_converters, ctx, tree)
